@@ -13,6 +13,8 @@
 (*   S5 a top-level variable (lazily evaluated, reached through a second top-level variable) whose     *)
 (*      evaluation is aborted by xsl:message terminate="yes" when $p = 'stop'                          *)
 (*   S6 a top-level variable that uses $p as a node-set: run-time XPath error whenever p is set        *)
+(*   S8 result-tree-fragment bodies aborted by xsl:message terminate="yes" right after text was written    *)
+(*      ($p = 'stop': xsl:variable, $p = 2: xsl:with-param)                                              *)
 (*   S7 xsl:sort keys whose evaluation fails after the keys of some nodes have been computed            *)
 (*      ($p = 'stop': in a text-keyed sort, $p = 2: in a number-keyed sort)                              *)
 (*   SD1, SD2 (role ok) named decimal-formats d0..d9 + the default one; SD2's dK differs from SD1's dK  *)
@@ -23,7 +25,7 @@
 (*   SX not well-formed   SV well-formed but not a valid stylesheet   DX not well-formed source       *)
 EXTENDS Integers
 
-PoolSS   == {"S1", "S2", "S3", "S4", "S5", "S6", "S7", "SD1", "SD2", "SE", "SU", "SM", "SX", "SV"}
+PoolSS   == {"S1", "S2", "S3", "S4", "S5", "S6", "S7", "S8", "SD1", "SD2", "SE", "SU", "SM", "SX", "SV"}
 PoolSrc  == {"D1", "D2", "DX"}
 PoolPNames == {"p"}
 PoolPVals  == {"str", "num", "obj"}    \* 'stop' as an expression string; 2 as a double; "obj" as an XObjectPtr
@@ -46,6 +48,7 @@ Class(ss, src, ps, fs) ==
          [] ss = "S5" /\ ps["p"] = "str" -> "terminated"
          [] ss = "S6" /\ ps["p"] # "none" -> "xpathError"
          [] ss = "S7" /\ ps["p"] \in {"str", "num"} -> "xpathError"
+         [] ss = "S8" /\ ps["p"] \in {"str", "num"} -> "terminated"
          [] ss = "SE"                    -> "encoding"
          [] ss = "SU"                    -> "unserializable"
          [] ss = "SM"                    -> "missingDoc"
